@@ -1276,8 +1276,11 @@ class DiameterMessage:
                                        "DiameterMessage subclass object to be "\
                                        "converted into DiameterMessage object")
         
-        return cls(header=msg.header,
-                   avps=msg.avps)
+        #: The header already carries the Message Length of these AVPs (they 
+        #: must not be counted again), and it must not be shared with `msg`.
+        return cls(header=msg.header.copy(),
+                   avps=msg.avps,
+                   loaded=True)
 
 
     def append(self, avp: DiameterAVP) -> None:
